@@ -83,11 +83,15 @@ func c02Build(nslots int) *c02World {
 	for i := 0; i < nslots; i++ {
 		route := cw.hosts[i] + "/s" + strconv.Itoa(i)
 		if i > 0 {
-			// secondary URLs: an honest document or nothing
-			if verifrt.Choice("secondary", 2) == 0 {
+			// secondary URLs: an honest document, nothing, or a document that
+			// claims to be the first URL's object (it lives on another origin)
+			switch verifrt.Choice("secondary", 3) {
+			case 0:
 				cw.w.Routes[route] = jtp.NewResp(httpDoc(docJSON(cw.urls[i], true, cw.tag(cw.hosts[i]), false)))
-			} else {
+			case 1:
 				cw.w.Routes[route] = jtp.NewResp("HTTP/1.1 404 Not Found\r\n\r\n")
+			default:
+				cw.w.Routes[route] = jtp.NewResp(httpDoc(docJSON(cw.urls[0], true, cw.tag(cw.hosts[i]), false)))
 			}
 			continue
 		}
